@@ -255,6 +255,16 @@ fn run_pipeline(ctx: &mut Ctx, src: &str, cfg: &Config, base: &CliResult, expect
     let a: Vec<&str> = args.iter().map(|s| s.as_str()).collect();
     let p = cli::run(&exe, &a, if cfg.parse_stdin { Some(src.as_bytes()) } else { None }, Some(&dir), &[], t);
     ctx.count("cli_stages", 1);
+    // a stage that writes into a directory chooses the file name itself: take the file it actually wrote
+    // (anything that is not one of our 200 000-byte stale fillers)
+    let fresh_file = |d: &std::path::Path| -> Option<PathBuf> {
+        let mut files: Vec<PathBuf> = std::fs::read_dir(d).map(|rd| rd.flatten().map(|e| e.path()).filter(|p| p.is_file()).collect()).unwrap_or_default();
+        files.sort();
+        files.into_iter().find(|f| std::fs::read(f).map_or(false, |b| !(b.len() == 200_000 && b.iter().all(|x| *x == b'#'))))
+    };
+    if matches!(cfg.parse_out, 3 | 4) {
+        if let Some(parent) = ast_path.as_ref().and_then(|g| g.parent().map(|x| x.to_path_buf())) { if let Some(f) = fresh_file(&parent) { ast_path = Some(f) } }
+    }
     let describe = |stage: &str, res: &CliResult, args: &Vec<String>| json!({"text": if src.len() > 400 { format!("{}... ({} chars)", &src[..200], src.len()) } else { src.to_string() },
         "config": format!("{:?}", cfg), "stage": stage, "args": args, "exit": res.code, "signal": res.signal, "stderr": res.err().chars().take(300).collect::<String>()});
     let run_accepts = base.code == Some(0) || !base.err().contains("Parse error");
@@ -299,6 +309,7 @@ fn run_pipeline(ctx: &mut Ctx, src: &str, cfg: &Config, base: &CliResult, expect
     let a: Vec<&str> = args.iter().map(|s| s.as_str()).collect();
     let c = cli::run(&exe, &a, compile_stdin.as_deref(), Some(&dir), &[], t);
     ctx.count("cli_stages", 1);
+    if cfg.compile_out == 1 { if let Some(f) = fresh_file(&dir.join("bcd")) { bc_path = Some(f) } }
     if !c.ok() {
         let recursion = c.err().to_lowercase().contains("recursion limit");
         let run_compiles = expected_bytes.is_ok();
@@ -339,7 +350,7 @@ fn cli_programs() -> Vec<String> {
         "let this = 1; print(\"~\\n\", this)", "object begin function print(x) -> x end.print(1)", "print(\"~\\n\", if false then 1)",
         "print(\"~ ~ ~\\n\", null == null, 1 != true, true & false)",
     ].into_iter().map(|s| s.to_string()).collect();
-    for pad in [0usize, 3, 5, 6] { v.push(big_program(pad, 130 + pad)) }
+    for pad in [0usize, 3, 5, 6] { v.push(big_program(pad, 200 + 7 * pad)) }
     v
 }
 
